@@ -566,6 +566,12 @@ fn first_bracket_deeper_than(input_str: &str, limit: usize) -> Option<(usize, us
                     hashes += 1;
                 }
 
+                // a `###` that is never closed is not a block comment: the grammar falls back to a
+                // line comment, and the brackets on the following lines are parsed
+                if hashes == 3 && !chars.clone().collect::<String>().contains("###") {
+                    hashes = 1;
+                }
+
                 let mut run = 0;
                 for s in chars.by_ref() {
                     col += 1;
